@@ -2,7 +2,7 @@
 import numpy as np
 
 from sim.core import Violation, Inconclusive, InjectedAbort, RandomProxy, patched_random, close6
-from sim.models import gen_mdp_spec, MDPView, make_mdp, sibling_mdp_spec
+from sim.models import rare_catastrophe_spec, gen_mdp_spec, MDPView, make_mdp, sibling_mdp_spec
 from sim.refsolve import optimal_values, evaluate
 from sim.heur import gen_heuristic, build_heuristic
 from sim.ctx import RunCtx, make_scheduler, gen_sched
@@ -46,6 +46,10 @@ def gen_case(rng, tier, idx):
     h['at_abs'] = abs(h['at_abs'])       # C03's heuristics never under-estimate, absorbing states (worth 0) included
     cfg = dict(heur=h, rao=rng.random() < 0.7, rno=rng.random() < 0.7, seed=rng.choice((0, 1, 2, 77, None)),
                reuse=rng.randrange(1000) if rng.random() < 0.15 else None, alias=rng.choice(('fresh', 'fresh', 'cached', 'shared', 'tuple')), cap_exact=rng.random() < 0.3)
+    if rng.random() < 0.01:
+        # a 1e-9 branch into a pit that costs 1e10 to leave: a successor can be nearly impossible and still decide the optimum
+        spec = rare_catastrophe_spec(rng)
+        cfg['reuse'] = None
     plain = idx % 4 == 0
     sched = gen_sched(rng, ('P',) if plain else ('P', 'X', 'X'), budget_choices=(None,), coop=False, cap=200000)
     return dict(spec=spec, cfg=cfg, sched=sched)
